@@ -16,8 +16,8 @@ use triomphe::{Arc, ArcUnion, HeaderSlice, HeaderWithLength, OffsetArc, ThinArc,
 const P6: &[&str] = &["C06"];
 const P7: &[&str] = &["C07"];
 
-pub trait TokP: Payload + Send + Sync + PartialEq + PartialOrd + std::hash::Hash + std::fmt::Debug {}
-impl<T: Payload + Send + Sync + PartialEq + PartialOrd + std::hash::Hash + std::fmt::Debug> TokP for T {}
+pub trait TokP: Payload + Send + Sync + PartialEq + PartialOrd + std::hash::Hash + std::fmt::Debug + Default {}
+impl<T: Payload + Send + Sync + PartialEq + PartialOrd + std::hash::Hash + std::fmt::Debug + Default> TokP for T {}
 
 /// boundary-biased lengths
 pub const LENS: [usize; 46] = [0, 1, 2, 3, 4, 5, 7, 8, 9, 15, 16, 17, 31, 32, 33, 63, 64, 65, 127, 128, 129, 255, 256, 257, 300, 511, 512, 513, 1023, 1024, 1025, 2047, 2048, 2049, 2730, 2731, 4095, 4096, 4097, 5461, 8191, 8192, 8193, 16384, 65536, 131072];
@@ -54,6 +54,7 @@ impl<T> Iterator for GenIter<T> {
         let x = self.items.pop_front();
         if x.is_some() {
             self.yielded += 1;
+            YIELDED.with(|c| c.set(c.get() + 1));
         }
         x
     }
@@ -75,9 +76,15 @@ impl<T> ExactSizeIterator for GenIter<T> {
 }
 thread_local! {
     static LEN_ASKS: std::cell::Cell<usize> = const { std::cell::Cell::new(0) };
+    /// items handed out by GenIter::next since the last reset (the iterator itself is consumed by the library)
+    static YIELDED: std::cell::Cell<usize> = const { std::cell::Cell::new(0) };
 }
 fn reset_len_asks() {
     LEN_ASKS.with(|c| c.set(0));
+    YIELDED.with(|c| c.set(0));
+}
+fn yielded() -> usize {
+    YIELDED.with(|c| c.get())
 }
 
 macro_rules! lib {
@@ -301,7 +308,13 @@ impl<Hd: TokP, El: TokP> Engine for CtorEngine<Hd, El> {
                         }
                     }
                 }
-                lib!(drop(built));
+                // one case in four: a panic inside the k-th destructor that runs when the handle is released
+                // (the destruction is recorded first; the rest is dropped while unwinding; the block must go)
+                let dk = if c.p(7) & 3 == 3 { 1 + pick(c.p(6), (len + 1).min(9)) as i64 } else { 0 };
+                tok::drop_panic_at(dk);
+                let r = lib!(catch_unwind(AssertUnwindSafe(move || drop(built))));
+                tok::drop_panic_at(0);
+                drop(r);
                 for id in ids.iter().chain(if uses_header { Some(&hid) } else { None }) {
                     match state(*id) {
                         Some((State::Dropped, 1)) => {}
@@ -465,7 +478,7 @@ impl<Hd: TokP, El: TokP> FaultEngine<Hd, El> {
     }
 }
 
-pub const FAULT_APIS: [&str; 16] = [
+pub const FAULT_APIS: [&str; 17] = [
     "Arc::from_header_and_iter",
     "ThinArc::from_header_and_iter",
     "collect::<Arc<[T]>>()",
@@ -482,6 +495,7 @@ pub const FAULT_APIS: [&str; 16] = [
     "comparison / hash / format of the payload panics",
     "Arc::from_header_and_vec (no user code; control)",
     "lying ExactSizeIterator into IteratorAsExactSizeIterator (collect, exact hint)",
+    "Arc::<T>::default() (Default::default panics)",
 ];
 
 impl<Hd: TokP, El: TokP> FaultEngine<Hd, El> {
@@ -543,6 +557,15 @@ impl<Hd: TokP, El: TokP> FaultEngine<Hd, El> {
                 if let Some(r) = rec {
                     if r != els.len() {
                         viol::report(&["C07", "C10"], "J.recorded-len", format!("{}: ThinArc recorded length {} but {} elements", what, r, els.len()));
+                    }
+                }
+                // the allocation was filled with every item the iterator handed out: the handle must show them all
+                // (a ThinArc's view is as long as its recorded length says)
+                if els.len() != yielded() {
+                    if rec.is_some() {
+                        viol::report(&["C07", "C10"], "J.recorded-len", format!("{}: the ThinArc shows {} elements (its recorded length) but the constructor took {} items from the iterator", what, els.len(), yielded()));
+                    } else {
+                        viol::report(P7, "J.len-after-lie", format!("{}: the handle shows {} elements but the constructor took {} items from the iterator", what, els.len(), yielded()));
                     }
                 }
                 if uses_header && hp.map(|p| p.ok && p.id == hid) != Some(true) {
@@ -841,6 +864,36 @@ impl<Hd: TokP, El: TokP> Engine for FaultEngine<Hd, El> {
                 let a = lib!(Arc::from_header_and_vec(Hd::make(1), items));
                 lib!(drop(a));
                 Self::finish("from_header_and_vec control", &ids);
+            }
+            16 => {
+                // Default::default is user code too: a panic there must leave nothing half-built behind
+                let k = (c.p(1) % 2) as i64;
+                what = format!("Arc::<{}>::default() with a panic armed at callback {}", El::tyname(), k);
+                rt::run::trace_stream(&what);
+                tok::panic_at(k);
+                let r = catch_unwind(AssertUnwindSafe(|| lib!(Arc::<El>::default())));
+                tok::panic_at(0);
+                match r {
+                    Ok(a) => {
+                        let p = a.peekp();
+                        if !p.ok || p.val != 0 || Arc::count(&a) != 1 {
+                            viol::report(&["C07", "C06"], "J.default-value", format!("{}: the handle reads {:?} with count {} (expected the default value, count 1)", what, p, Arc::count(&a)));
+                        }
+                        let id = p.id;
+                        lib!(drop(a));
+                        Self::finish(&what, &[id]);
+                        if k != 0 {
+                            viol::report(P7, "J.lost-panic", format!("{}: the injected panic did not propagate", what));
+                        }
+                    }
+                    Err(e) => {
+                        drop(e);
+                        // a destructor on the unwritten slot is reported by the payload itself (L.drop-bad-magic)
+                        Self::finish(&what, &[]);
+                        nt = true;
+                        labels.push("default-panicked");
+                    }
+                }
             }
             12 => {
                 // with_arc_mut: panic before / after replacing (also in the thin history engine)
